@@ -121,10 +121,11 @@ PROPS = {
         "assumptions": ["claimed for the kernels with a parallel path (FFT family, Lagrange coefficients, barycentric evaluation, vanishing-polynomial closed forms) reached through the verif::kernels wrappers; polynomial add/sub/mul/ruffini and batch_inversion have no parallel path and no other seam (pure algebra) and are not decided here"],
     },
     "C18": {
+        "extra_phase": lambda mod, prop, tier, seed, agg: mod.c18_extra_phase(mod, prop, tier, seed, agg),
         "level": "exploration",
-        "runs": {"quick": 600, "thorough": 12000},
+        "runs": {"quick": 320, "thorough": 12000},
         "budget_s": {"quick": 400, "thorough": 3000},
-        "rule": "one evaluation = one top-level operation (compile by a seeded route / compress / prove with a fixed RNG script) executed under a perturbed environment (pool size T from the menu 1..17,24,31,32,33,64,100; seeded schedule; seeded hash-seed stream; seeded history of unrelated deployments; keys optionally reloaded from bytes) and compared byte-for-byte with the sequential specification (T=1, in-order, hash stream 0, empty history). Non-trivial = the environment is not the canonical one; distinct = distinct hash of (scenario shape, environment, operation).",
+        "rule": "one evaluation = one top-level operation (compile by a seeded route / compress / prove with a fixed RNG script) executed under a perturbed environment (pool size T from the menu 1..17,24,31,32,33,64,100; seeded schedule; seeded hash-seed stream; seeded history of unrelated deployments; keys optionally reloaded from bytes) and compared byte-for-byte with the sequential specification (T=1, in-order, hash stream 0, empty history); plus per-run digests of the std build (E1) compared with the alloc-only build (E3); plus, under shuttle (E2), 2..4 (thorough: ..9) concurrent caller threads on shared keys, each performing a seeded list of prove / verify / to_bytes / compile calls whose results must equal the same calls made sequentially, one evaluation per explored schedule. Non-trivial = the environment is not the canonical one; distinct = distinct hash of (scenario shape, environment, operation).",
         "assumptions": ["std vs alloc-only builds are compared through per-run digests emitted by two separately built binaries (E1/E3)."],
     },
 }
